@@ -137,6 +137,95 @@ example : (moveDead #[⟨"a", 2, true, false⟩, ⟨"b", 3, true, false⟩, ⟨"
   simp [moveDead, moveDeadLoop, SNode.reap, SNode.gone]
 
 
+/-! ### resetNodes -/
+
+theorem take_of_split (p : SNode → Bool) (l : List SNode) (k : Nat)
+    (h : ∀ j (hj : j < l.length), j < k → p l[j] = false) : ∀ s ∈ l.take k, p s = false := by
+  intro s hs
+  obtain ⟨j, hj, rfl⟩ := List.mem_iff_getElem.mp hs
+  simp only [List.length_take] at hj
+  rw [List.getElem_take]
+  exact h j (by omega) (by omega)
+
+theorem drop_of_split (p : SNode → Bool) (l : List SNode) (k : Nat)
+    (h : ∀ j (hj : j < l.length), k ≤ j → p l[j] = true) : ∀ s ∈ l.drop k, p s = true := by
+  intro s hs
+  obtain ⟨j, hj, rfl⟩ := List.mem_iff_getElem.mp hs
+  simp only [List.length_drop] at hj
+  rw [List.getElem_drop]
+  exact h (k + j) (by omega) (by omega)
+
+theorem moveDead_take_live (xs : Array SNode) : ∀ s ∈ (moveDead xs).1.toList.take (moveDead xs).2, s.reap = false := by
+  obtain ⟨_, hf, _⟩ := C03_moveDead_split xs
+  exact take_of_split SNode.reap _ _ (by intro j hj h; simpa using hf j (by simpa using hj) h)
+
+theorem moveDead_drop_old (xs : Array SNode) : ∀ s ∈ (moveDead xs).1.toList.drop (moveDead xs).2, s.reap = true := by
+  obtain ⟨_, _, hb⟩ := C03_moveDead_split xs
+  exact drop_of_split SNode.reap _ _ (by intro j hj h; simpa using hb j (by simpa using hj) h)
+
+theorem mem_moveDead_iff (xs : Array SNode) (s : SNode) : s ∈ (moveDead xs).1.toList ↔ s ∈ xs := by
+  have := (Array.perm_iff_toList_perm.mp (C03_moveDead_perm xs)).mem_iff (a := s)
+  simpa using this
+
+/-- **C03 / C07 (reaping).** `resetNodes` never drops a member that is alive, suspect or only recently departed. -/
+theorem C03_reset_keeps_live (self : String) (xs : Array SNode) (s : SNode) (hs : s ∈ xs) (hl : s.reap = false) :
+    s ∈ resetKeep self xs := by
+  have hmem : s ∈ (moveDead xs).1.toList := (mem_moveDead_iff xs s).mpr hs
+  rw [← List.take_append_drop (moveDead xs).2 (moveDead xs).1.toList] at hmem
+  have hk : s ∈ (moveDead xs).1.toList.take (moveDead xs).2 := by
+    rcases List.mem_append.mp hmem with h | h
+    · exact h
+    · have := moveDead_drop_old xs s h; simp [hl] at this
+  unfold resetKeep
+  simp only
+  split
+  · exact List.mem_append.mpr (Or.inl hk)
+  · exact hk
+
+/-- **C20 (after Leave).** The node's own record survives every reaping pass - also when it is marked as left
+and older than the gossip-to-the-dead window (`LocalNode`, `UpdateNode` and `Leave` look it up). -/
+theorem C20_reset_keeps_own (self : String) (xs : Array SNode) (s : SNode) (hs : s ∈ xs) (hn : s.name = self) :
+    ∃ s' ∈ resetKeep self xs, s'.name = self := by
+  by_cases hl : s.reap = false
+  · exact ⟨s, C03_reset_keeps_live self xs s hs hl, hn⟩
+  · have hmem : s ∈ (moveDead xs).1.toList := (mem_moveDead_iff xs s).mpr hs
+    rw [← List.take_append_drop (moveDead xs).2 (moveDead xs).1.toList] at hmem
+    have hd : s ∈ (moveDead xs).1.toList.drop (moveDead xs).2 := by
+      rcases List.mem_append.mp hmem with h | h
+      · have := moveDead_take_live xs s h; simp [this] at hl
+      · exact h
+    unfold resetKeep
+    simp only
+    cases hf : ((moveDead xs).1.toList.drop (moveDead xs).2).find? (fun n => n.name == self) with
+    | none =>
+      have := List.find?_eq_none.mp hf s hd
+      simp [hn] at this
+    | some s' =>
+      have hp := List.find?_some hf
+      exact ⟨s', List.mem_append.mpr (Or.inr (by simp)), by simpa using hp⟩
+
+/-- everything `resetNodes` keeps was there before, and is either not (departed and old) or the node's own record:
+long-departed members are forgotten -/
+theorem C03_reset_sound (self : String) (xs : Array SNode) (s : SNode) (h : s ∈ resetKeep self xs) :
+    s ∈ xs ∧ (s.reap = false ∨ s.name = self) := by
+  unfold resetKeep at h
+  simp only at h
+  have htake : ∀ t ∈ (moveDead xs).1.toList.take (moveDead xs).2, t ∈ xs ∧ (t.reap = false ∨ t.name = self) := by
+    intro t ht
+    exact ⟨(mem_moveDead_iff xs t).mp (List.mem_of_mem_take ht), Or.inl (moveDead_take_live xs t ht)⟩
+  split at h
+  · rename_i s' hf
+    rcases List.mem_append.mp h with h | h
+    · exact htake s h
+    · have : s = s' := by simpa using h
+      subst this
+      exact ⟨(mem_moveDead_iff xs s).mp (List.mem_of_mem_drop (List.mem_of_find?_eq_some hf)),
+        Or.inr (by simpa using List.find?_some hf)⟩
+  · exact htake s h
+
+example : (resetKeep "me" #[⟨"a", 2, true, false⟩, ⟨"me", 3, true, false⟩, ⟨"c", 0, true, false⟩]).map (·.name) = ["c", "me"] := by
+  simp [resetKeep, moveDead, moveDeadLoop, SNode.reap, SNode.gone]
+
 /-! ### kRandomNodes -/
 
 /-- what holds of the list of chosen members at every moment of the second loop -/
